@@ -161,6 +161,30 @@ def db_job(e, p):
         m = sat_model(e, True); report(e, 'db-roundtrip', what='; '.join(probs[:3]), case=case(m))
     return {'final': final, 'history': hist, 'nodes': len(after), 'answer': got}
 
+def db_names_job(e, p):
+    """the database round trip of the statement dictionary for every number of statements 1..N (acceptance conditions: the statement itself)"""
+    N = 1 + e.choose(p['N'], 'statements')
+    names = ['%s%s' % (chr(ord('a') + (i * 7) % 26), '' if i < 26 else str(i)) for i in range(N)]
+    bdd, r = new_bdd(e)
+    acs = [e.call('obdd::Bdd::variable', [r, T(v)]) for v in range(N)]
+    fields = {'ordering': var_container(e, names), 'bdd': bdd, 'ac': VecObj(acs), 'rng': new_rng_cell()}
+    adf = Struct([fields[k] for k in e.structs['Adf']])
+    def on_panic(e_, msg): report(e_, 'panic', what='database round trip panics: %s' % msg[:200], case={'vars_only': True, 'n': N, 'names': names, 'tabs': [], 'final': 'grounded', 'history': []})
+    e.hooks['on_panic'] = on_panic
+    simp = e.call('<adf::SimplifiedAdf as From<adf_bdd::adf::Adf>>::from', [adf])
+    back = e.call('<adf_bdd::adf::Adf as From<adf::SimplifiedAdf>>::from', [simp])
+    vc = back.f[e.field('Adf', 'ordering')]
+    probs = []
+    for i, nm in enumerate(names):
+        rr = e.call('adf::VarContainer::name', [Ref([vc], 0), T(i)])
+        if rr.v != 'Some' or sval(rr.f[0]) != nm: probs.append('statement %d is called %s after the round trip, submitted %s' % (i, sval(rr.f[0]) if rr.v == 'Some' else None, nm))
+        rr = e.call('adf::VarContainer::variable', [Ref([vc], 0), nm])
+        if rr.v != 'Some' or tv(rr.f[0]) != i: probs.append('variable of %s is %r after the round trip' % (nm, rr))
+    if p.get('canary'): probs.append('canary')
+    if probs: report(e, 'db-roundtrip', what='; '.join(probs[:3]), case={'vars_only': True, 'n': N, 'names': names, 'tabs': [], 'final': 'grounded', 'history': []})
+    return {'statements': N}
+
+
 # ------------------------------------------------------------------ native side
 
 def native(ctx): return ctx.native(extra=('server_dto',))
@@ -197,7 +221,7 @@ def replay(ctx, v):
     return ('reproduced', {'problems': probs[:5], 'native_output': out}) if probs else ('not-reproduced', out)
 
 def key(v):
-    c = v['case']; return '%s:%s' % (v['kind'], json.dumps([c['n'], c['tabs'], c.get('which'), c.get('final'), c.get('history')]))
+    c = v['case']; return '%s:%s' % (v['kind'], json.dumps([c['n'], c['tabs'], c.get('which'), c.get('final'), c.get('history'), c.get('vars_only')]))
 
 
 def engine_key(ctx):
@@ -255,6 +279,7 @@ def spec(ctx, tier, seed):
     for fin in STRATEGIES:
         jobs.append(Job('db-n2-%s' % fin, mod, 'db_job', {'n': 2, 'fam': ['sym', 'sym'], 'final': fin, 'history': [rng.choice(STRATEGIES)] if rng.random() < 0.5 else []},
                         engine_key=k, stop_after_violations=40))
+    jobs.append(Job('db-names-1..16', mod, 'db_names_job', {'N': 16 if tier == 'quick' else 40}, engine_key=k, stop_after_violations=40))
     fams = semjobs.families(3, 1, rng, 2 if tier == 'quick' else 6)
     for i, fam in enumerate(fams):
         which = (['none'] + STRATEGIES)[i % 7]
@@ -266,6 +291,6 @@ def spec(ctx, tier, seed):
             'assumptions': ASSUMPTIONS + ['Arc/RwLock are single-threaded cells', 'usize::to_string / str::parse are exact on concrete numbers',
                                           'native replay compiles double_labeled_graph.rs and the database DTOs of server/src/adf.rs from their source text into the replay crate'],
             'bounds': 'all 256 two-statement ADFs and seeded 3-statement families; pictures of the ADF itself and of every model of each of the six strategies; database round trip '
-                      '(SimplifiedAdf) followed by each strategy',
+                      '(SimplifiedAdf) followed by each strategy; the statement dictionary alone for every number of statements 1..16 (thorough: 40)',
             'outside': 'HTTP / actix handlers, async task bookkeeping (currently_running), MongoDB, timeouts, the strategy dispatch inside the handler closure, both parsing strategies as wired by '
                        'add_adf_problem, "unparseable code is an error": none of these is a function a bounded symbolic execution can run'}
